@@ -439,7 +439,14 @@ func sortedCopy(v []uint64) []uint64 {
 // Observe reads everything the property talks about: InitialState, FirstIndex, LastIndex,
 // Snapshot, Term(i) for i in 0..n, Entries(lo,hi,0) for all 0<=lo<=hi<=n+1 with hi>=1, and
 // size-limited reads of the whole range.
-func Observe(ctx context.Context, st multiraft.Storage, n uint64) *Obs {
+func Observe(ctx context.Context, st multiraft.Storage, n uint64) *Obs { return observe(ctx, st, n, false) }
+
+// ObserveLight is Observe with the (lo,hi) ranges reduced to every suffix [lo,n+1), every
+// prefix [0,hi) and every single index [i,i+1) - used where the same store is read very
+// often (crash images); the entry rows themselves are still all read and compared.
+func ObserveLight(ctx context.Context, st multiraft.Storage, n uint64) *Obs { return observe(ctx, st, n, true) }
+
+func observe(ctx context.Context, st multiraft.Storage, n uint64, light bool) *Obs {
 	o := &Obs{N: n, Ranges: map[[2]uint64]string{}, Sized: map[uint64]string{}, RangeBelow: map[[2]uint64]uint64{}}
 	bs, err := st.InitialState(ctx)
 	o.InitErr = errStr(err)
@@ -461,6 +468,9 @@ func Observe(ctx context.Context, st multiraft.Storage, n uint64) *Obs {
 		for hi := lo; hi <= n+1; hi++ {
 			if hi == 0 {
 				continue // hi=0 means "unbounded" to the durable store and "nothing" to a slice; Raft never asks
+			}
+			if light && !(hi == n+1 || lo == 0 || hi == lo+1) {
+				continue
 			}
 			es, err := st.Entries(ctx, lo, hi, 0)
 			if err != nil {
